@@ -15,12 +15,28 @@ from ECAgent.Decode import JsonDecoder
 MOD = FX.__name__
 
 
+def _install_main_aliases():
+    """The documented default for an omitted "module" is `__main__`: the fixtures are also reachable there, under other names
+    (so that a lookup in any other module finds nothing)."""
+    import __main__
+    __main__.main_hook = FX.hook
+    __main__.MainSystem = FX.FxSystem
+    __main__.MainAgent = FX.FxAgent
+
+
 def to_file_doc(d):
+    nomod = d.get("nomod", 0)          # 1: hooks omit their module, 2: system / agent classes omit it, 3: both
+
     def hk(kind, i=None):
         p = {"kind": kind}
         if i is not None:
             p["i"] = i
+        if nomod in (1, 3):
+            return {"func": "main_hook", "params": p}
         return {"func": "hook", "module": MOD, "params": p}
+
+    def named(name, alias):
+        return {"name": alias} if nomod in (2, 3) else {"name": name, "module": MOD}
 
     doc = {"model": {"name": "FxModel", "module": MOD, "params": {"seed": 5, "closed": bool(d.get("closed"))}}, "systems": [], "agents": []}
     if d["pre"]:
@@ -28,7 +44,7 @@ def to_file_doc(d):
     if d["post"]:
         doc["post_model_decode"] = hk("post_model")
     for i, s in enumerate(d["systems"], start=1):
-        sd = {"name": "FxSystem", "module": MOD,
+        sd = {**named("FxSystem", "MainSystem"),
               "params": {"i": i, "id": s["id"], "priority": s["prio"], "frequency": s["freq"], "start": s["start"],
                          "end": sys.maxsize if s["end"] >= 999999 else s["end"]}}
         if s["pre"]:
@@ -37,7 +53,7 @@ def to_file_doc(d):
             sd["post_system_init"] = hk("post_system", i)
         doc["systems"].append(sd)
     for j, g in enumerate(d["groups"], start=1):
-        gd = {"name": "FxAgent", "module": MOD, "number": g["n"], "params": {"j": j}}
+        gd = {**named("FxAgent", "MainAgent"), "number": g["n"], "params": {"j": j}}
         if g["pre"]:
             gd["pre_agent_init"] = hk("pre_agents", j)
             if j == 1 and d.get("swap"):
@@ -51,6 +67,7 @@ def to_file_doc(d):
 def run_program(prog):
     tmp = tempfile.mkdtemp(prefix="verif-dec-")
     events = []
+    _install_main_aliases()
     try:
         for n, d in enumerate(prog):
             path = os.path.join(tmp, "m%d.json" % (n % 2))       # alternate between two files
@@ -98,7 +115,8 @@ def all_descs(max_sys, max_groups, max_n):
                         for gs in itertools.product(grp_opts, repeat=ng):
                             systems = [dict(s, id="s%d" % (k * 7 % 5), prio=(3 * k + ns) % 4 - 1, freq=1 + k % 2, start=k, end=999999 if k % 2 else (0 if k % 4 == 0 else 5 + k))
                                        for k, s in enumerate(ss)]
-                            out.append({"pre": pre, "post": post, "closed": len(out) % 3 == 1, "swap": len(out) % 4 == 2, "systems": systems,
+                            out.append({"pre": pre, "post": post, "closed": len(out) % 3 == 1, "swap": len(out) % 4 == 2, "nomod": (len(out) // 5) % 4,
+                                        "systems": systems,
                                         "groups": [dict(g) for g in gs]})
     return out
 
@@ -108,7 +126,8 @@ def random_desc(rng, max_sys=4, max_groups=4, max_n=4):
     systems = [{"pre": rng.random() < 0.5, "post": rng.random() < 0.5, "id": i, "prio": rng.choice([-5, -1, 0, 0, 1, 9]),
                 "freq": rng.randint(1, 3), "start": rng.choice([0, 0, 2, -1]), "end": rng.choice([999999, 3, 10, 0, 0, -1])} for i in ids]
     groups = [{"pre": rng.random() < 0.5, "post": rng.random() < 0.5, "n": rng.randint(0, max_n)} for _ in range(rng.randint(0, max_groups))]
-    return {"pre": rng.random() < 0.5, "post": rng.random() < 0.5, "closed": rng.random() < 0.3, "swap": rng.random() < 0.3, "systems": systems, "groups": groups}
+    return {"pre": rng.random() < 0.5, "post": rng.random() < 0.5, "closed": rng.random() < 0.3, "swap": rng.random() < 0.3,
+            "nomod": rng.choice([0, 0, 1, 2, 3]), "systems": systems, "groups": groups}
 
 
 def tamper(trace, rng):
